@@ -133,7 +133,10 @@ def execute_step(env, step):
         # solver argument the only look-up is pulp's, just before it would start the process
         fault["lookups"] = 1 if via == "property" else 0
     n_before = len(env.solves)
-    solver = env.configure(backend, highs_on_path, cbc_exec, [fault])
+    # fault_then: what the same back-end does when it is asked again within the step (a transient failure; an
+    # independent draw for the later conversions of a consumer that converts several times)
+    plan = [fault] + ([dict(step["fault_then"])] if step.get("fault_then") else [])
+    solver = env.configure(backend, highs_on_path, cbc_exec, plan)
     if step.get("default_fault"):
         env.secondary_fault = dict(step["default_fault"])
     if via == "property":
